@@ -119,9 +119,14 @@ package roman
 //@   ensures [C02.case C16.inplace] forall i in 0..len(buf) :: buf[i] == lower(old(buf)[i])
 //@   ensures [C02.case] sameSlice(result, buf)
 //@   assigns buf
-//@   loop 0 invariant 0 <= rangeindex+1 && rangeindex+1 <= len(buf)
-//@   loop 0 invariant forall i in 0..rangeindex+1 :: buf[i] == lower(old(buf)[i])
-//@   loop 0 invariant forall i in rangeindex+1..len(buf) :: buf[i] == old(buf)[i]
+// the loop as it stands (range over buf) and as an index loop `for i := 0; i < len(buf); i++`: whichever set of
+// candidates names the variables the code has is used (the other set does not resolve and is left out)
+//@   loop 0 candidate 0 <= rangeindex+1 && rangeindex+1 <= len(buf)
+//@   loop 0 candidate forall k in 0..rangeindex+1 :: buf[k] == lower(old(buf)[k])
+//@   loop 0 candidate forall k in rangeindex+1..len(buf) :: buf[k] == old(buf)[k]
+//@   loop 0 candidate 0 <= i && i <= len(buf)
+//@   loop 0 candidate forall k in 0..i :: buf[k] == lower(old(buf)[k])
+//@   loop 0 candidate forall k in i..len(buf) :: buf[k] == old(buf)[k]
 //@   loop 0 invariant heapSameExcept(buf)
 
 // The canonical numeral of n appended to buf: n/1000 times M, then the hundreds, tens and units digits.
